@@ -3,17 +3,22 @@
 L4 = ["layer4/verif_common_test.go"]
 INTEG = ["integration/verif_common_test.go"]
 
-MATCH = dict(name="match", pkg="./integration/", test="TestVerifMatch", files=INTEG + ["integration/verif_chain_test.go", "integration/verif_match_test.go", "integration/verif_match2_test.go"],
+MATCH = dict(name="match", pkg="./integration/", test="TestVerifMatch", files=INTEG + ["integration/verif_chain_test.go", "integration/verif_match_test.go", "integration/verif_match2_test.go", "integration/verif_match3_test.go"],
              nq=20000, nt=400000)
 
 PROPS = {
+    "C06": dict(
+        lean_modules=["L4.Props.C06"],
+        stages=[dict(MATCH, only_sigs=["socket-read:", "nondeterministic:", "no-not-stable:", "fragment-rejected:", "set-not-conjunction"])],
+        level_text="x", level_note="y",
+    ),
     "C04": dict(
-        lean_modules=["L4.Props.C04"],
+        lean_modules=["L4.Props.C04", "L4.Expect.C04"],
         stages=[dict(MATCH, only_sigs=["panic:", "alloc:"])],
         level_text="x", level_note="y",
     ),
     "C01": dict(
-        lean_modules=["L4.Props.C01"],
+        lean_modules=["L4.Props.C01", "L4.Expect.C01"],
         stages=[
             dict(name="conn", pkg="./layer4/", test="TestVerifConn", files=L4 + ["layer4/verif_conn_test.go"], nq=4000, nt=80000),
             dict(name="chain", pkg="./integration/", test="TestVerifChain", files=INTEG + ["integration/verif_chain_test.go"],
@@ -38,7 +43,7 @@ PROPS = {
         assumptions=["bufio.Reader / io.TeeReader / io.ReadFull behave as modelled (sampled by the differential)"],
     ),
     "C02": dict(
-        lean_modules=["L4.Props.C02"],
+        lean_modules=["L4.Props.C02", "L4.Expect.C02"],
         stages=[
             dict(name="route", pkg="./layer4/", test="TestVerifRoute", files=L4 + ["layer4/verif_route_test.go"],
                  nq=4000, nt=60000),
